@@ -99,4 +99,24 @@ mod verif_kani {
     #[kani::unwind(18)]
     fn optimal_empty_indices_d3() { empty_indices_contract(3); }
 
+
+    // leaf_index over long paths (depths up to 12): only the direction bits matter, so the elements are fixed
+    #[kani::proof]
+    #[kani::unwind(14)]
+    fn optimal_leaf_index_len12() {
+        let len: usize = kani::any();
+        kani::assume(len <= 12);
+        let mut v: Vec<(TFr, u8)> = Vec::new();
+        let mut idx: usize = 0;
+        let mut k = 0;
+        while k < len {
+            let bit: u8 = kani::any();
+            kani::assume(bit <= 1);
+            v.push((TFr(0), bit));
+            idx |= (bit as usize) << k;
+            k += 1;
+        }
+        let p = OptimalMerkleProof::<TH>(v);
+        assert!(p.leaf_index() == idx, "leaf_index/decodes-lsb-first");
+    }
 }
